@@ -32,9 +32,8 @@ TECHNIQUE = 'Lean 4 proof (decision logic characterised for all inputs; list ind
 ASSUMPTIONS = ['single-threaded use of the MCA parameter registry',
                'LP64: long = long long = 64 bits, int = 32 bits, (int) cast keeps the low 32 bits (gcc), C locale isspace',
                'parameter indices passed to the API are valid (the code tests index > size instead of >=) and string overrides are non-NULL (lookup_override strdup()s the pointer)',
-               'finding F1 (keyval key_buffer freed but kept) is worked around by keeping the buffer while corpus case 900 still crashes']
+               'one harness process runs all scripted cases (registry finalized and re-initialised between cases); finding F1 (fixed by a69806a) is guarded by corpus case 900']
 
-F1_KEY = 'crash:keyval_parse_finalize leaves key_buffer dangling; second read_files (recache / re-init) reuses and re-frees it'
 
 # ------------------------------------------------------------------ independent conversions (written from the C standard, not from the model)
 _num = re.compile(r'[ \t\n\v\f\r]*([+-]?)(0[xX][0-9a-fA-F]+|0[0-7]*|[1-9][0-9]*)?')
@@ -541,7 +540,7 @@ def run(ctx, res, cases=None):
     tm, t0 = {}, time.time()
     src = os.path.join(pv.ROOT, 'harness', 'C38.c')
     exe = ctx.path('C38')
-    ok, log = pv.cc_harness(src, exe, ctx.build, sanitize=True, extra=['-ldl'])
+    ok, log = pv.cc_harness(src, exe, ctx.build, sanitize=True)
     if not ok:
         res.infra_errors.append('harness compile failed: ' + log[-1500:]); return
     tm['compile'] = round(time.time() - t0, 1); t0 = time.time()
@@ -553,18 +552,7 @@ def run(ctx, res, cases=None):
     rng = pv.Rng(ctx.seed)
     corpus = load_corpus()
 
-    # finding F1 probe: does a second read_files still touch freed memory?  (plain binary, own process)
-    probe = [c for f, c in corpus if f.startswith('900')]
-    if probe:
-        rs, _, _, (rc, err) = pv.run_script(exe, 'pv_C38', [probe[0]], use_driver=False, env=env, harness_args=[wd], timeout=120)
-        res.evaluations += 1
-        if rs[0]['crashed'] or rc != 0:
-            env['PV_KEEP_KEYBUF'] = '1'
-            m = re.search(r'ERROR: AddressSanitizer: [^\n]*(?:\n[^\n]*){0,6}', err or '')
-            what = 'real code aborts (rc=%s) in corpus case 900 after %d ops: %s' % (rc, len(rs[0]['impl']), (m.group(0) if m else (err or '')[-300:]).replace('\n', ' | '))
-            res.violations.append({'key': F1_KEY, 'what': what, 'case': probe[0]})
-            res.notes.append('finding F1 reproduced; remaining cases run with the key buffer kept (harness run with PV_KEEP_KEYBUF=1)')
-    corpus_cases = [c for f, c in corpus if not f.startswith('900')]
+    corpus_cases = [c for f, c in corpus]
 
     if cases is None:
         n = 400 if ctx.quick else 30000
@@ -572,7 +560,7 @@ def run(ctx, res, cases=None):
         ne2e = 4 if ctx.quick else 40
     else:
         ne2e = 0
-    tm['probe+gen'] = round(time.time() - t0, 1); t0 = time.time()
+    tm['gen'] = round(time.time() - t0, 1); t0 = time.time()
     results, stats, viols, (rc, err) = pv.run_script(exe, 'pv_C38', cases, env=env, use_driver=ctx.driver_ok, harness_args=[wd], timeout=1500)
     tm['scripts'] = round(time.time() - t0, 1); t0 = time.time()
 
@@ -666,6 +654,6 @@ def run(ctx, res, cases=None):
 
 
 def replay(ctx, res, data):
-    cases = [v['case'] for v in data.get('violations', []) if 'case' in v and not v.get('e2e') and v.get('key') != F1_KEY] + \
+    cases = [v['case'] for v in data.get('violations', []) if 'case' in v and not v.get('e2e')] + \
             [d['case'] for d in data.get('disagreements', []) if 'case' in d and not d.get('e2e')]
     run(ctx, res, cases=cases or None)
